@@ -189,7 +189,9 @@ def run(P: Program, R: Report, tier: str) -> None:
 
     # ---- R03.3 strict neighbour contract (the interpreter models this function by its contract:
     # pred is strictly before `time`, succ strictly after; here the contract is checked on the code)
-    gtn = P.func_named("get_track_neighbors", "SolutionTracks")
+    from .neighbours import follow_delegation
+
+    gtn = follow_delegation(P, P.func_named("get_track_neighbors", "SolutionTracks"))
     tparam = gtn.params[2] if len(gtn.params) > 2 else "time"
     A2 = ActionAnalysis(P, loop_iters=2)
     _, gres = A2.run(gtn)
